@@ -322,7 +322,12 @@ func checkC18(c *Ctx, r *Report, tier string) {
 		}
 		loopsSurvivePanics(c, r, "C18.R4", loops)
 		contextsAreForwarded(c, r, "C18.R4", "storage", "storage/raft")
+		roleLoopHandlersSequential(c, r, "C18.R4", loops)
 	}
+	r.Rule("C18.R5", "start-up cannot wedge: the allocator loop runs before the zero group is started, log consumers are registered before it (borrowed from C14.R1), and dialling a peer never waits for the connection", 3)
+	receiversStartBeforeTheLog(c, r, "C18.R5")
+	borrow(c, r, "C14", "C14.R1", "C18.R5", "")
+	dialDoesNotBlock(c, r, "C18.R5")
 	callers := map[*ssa.Function][]*ssa.Call{}
 	for _, f := range w.fns {
 		eachInstr(f, func(i ssa.Instruction) {
